@@ -93,10 +93,12 @@ impl CosetTable {
     }
 
     fn compact(&self) -> CosetTable {
-        let mut n = 0;
+        // the class of row 0 keeps the number 0, whichever row represents it
+        let base = self.canon(0);
+        let mut n = 1;
         let mut old_to_new = vec![0; self.len()];
         for k in 0..self.len() {
-            if self.canon(k) == k {
+            if self.canon(k) == k && k != base {
                 old_to_new[k] = n;
                 n += 1;
             }
